@@ -20,6 +20,8 @@ def run_property(prop, repo_root, tier, seed=0, only_rule=None, verbose=False, o
     ctx = Ctx(prop, repo, tier=tier, seed=seed, only_rule=only_rule, verbose=verbose, quiet=quiet)
     mod = importlib.import_module('sa.rules.' + prop.lower())
     explanation = mod.run(ctx)
+    if ctx.floor_failures and not ctx.split_known()[0]:
+        raise AnalysisError('; '.join(ctx.floor_failures))
     if not write:
         return (1 if ctx.violations else 0), ctx
     code = ctx.finish(explanation, trusted_base=getattr(mod, 'TRUSTED', None))
